@@ -249,6 +249,21 @@ func (c *channelManager) updateAndGet(ctx context.Context, values map[string]map
 	return c.getFromReadyChannels(ctx)
 }
 
+// discardParked closes the stream values that wait in the channels of nodes which have not become ready
+// when the run returns its result (eager execution: END is ready, these nodes do not feed it).
+func (c *channelManager) discardParked() {
+	for _, ch := range c.channels {
+		dc, ok := ch.(*dagChannel)
+		if !ok {
+			continue
+		}
+		for from, v := range dc.Values {
+			closeIfStream(v)
+			delete(dc.Values, from)
+		}
+	}
+}
+
 func (c *channelManager) reportBranch(from string, skippedNodes []string) error {
 	var nKeys []string
 	for _, node := range skippedNodes {
